@@ -318,7 +318,7 @@ def regenerate_and_check(modules):
             for m in modules:
                 f = gdir / f"{m}.lean"
                 try:
-                    src = translate.generate(REPO)
+                    src = translate.GENERATORS[m](REPO)
                 except Exception as e:
                     broken = {"kind": "generated_tie", "module": m,
                               "error": f"translator: {type(e).__name__}: {e}"}
@@ -340,13 +340,14 @@ def regenerate_and_check(modules):
                     broken = {"kind": "generated_tie", "module": m, "theorems": sorted(set(names)),
                               "log_tail": log[-1500:]}
                 else:
-                    thms += audit("GeneratedTie", module=f"Generated.{m}")
+                    thms += audit({"Geometry": "GeneratedTie", "OverSample": "GeneratedOSTie"}.get(m, "GeneratedTie"),
+                                  module=f"Generated.{m}")
         finally:
             if REPO.resolve() != Path("/repo").resolve():
                 # leave the committed (real-tree) version behind after a run against a scratch tree
                 for m in modules:
                     try:
-                        (gdir / f"{m}.lean").write_text(translate.generate(Path("/repo")))
+                        (gdir / f"{m}.lean").write_text(translate.GENERATORS[m](Path("/repo")))
                     except Exception:
                         pass
             fcntl.flock(lockf, fcntl.LOCK_UN)
